@@ -116,6 +116,9 @@ struct Global {
   // PCT
   uint64_t pct_change[8];
   int64_t pct_low;
+  // STARVE: one thread is kept off the CPU for a window of steps
+  int starve_victim;
+  uint64_t starve_from, starve_to;
   // tables
   Cell** cells;
   size_t cells_cap, cells_n;
@@ -314,6 +317,17 @@ int pick(Thread* me, bool me_yields) {
       }
     } else {
       bool sw = me_yields || !me_ok || G.rng.chance1000(G.P.p_switch_x1000);
+      if (G.P.strategy == S_STARVE && G.steps >= G.starve_from && G.steps < G.starve_to) {
+        // the victim stays off the CPU while anybody else can run
+        int others[MAXT], no = 0;
+        for (int i = 0; i < nc; i++)
+          if (cands[i] != G.starve_victim) others[no++] = cands[i];
+        if (no > 0 && no < nc) {
+          if (me_ok && !me_yields && me->id != G.starve_victim && !sw) chosen = me->id;
+          else chosen = others[G.rng.below((uint32_t)no)];
+          sw = false;
+        }
+      }
       if (sw) {
         // uniformly among the others when yielding, among all otherwise
         if (me_ok && me_yields && nc > 1) {
@@ -959,6 +973,9 @@ void run(const Params& p, const std::function<void()>& body) {
   t0->deadline = -1;
   t0->prio = 1000 + (int64_t)G.rng.below(1000);
   for (int i = 0; i < 8; i++) G.pct_change[i] = 1 + G.rng.below((uint32_t)(p.pct_est_steps > 0 ? p.pct_est_steps : 1));
+  G.starve_victim = 1 + (int)G.rng.below(5);
+  G.starve_from = G.rng.below((uint32_t)(p.pct_est_steps > 0 ? p.pct_est_steps : 1));
+  G.starve_to = G.starve_from + 20 + G.rng.below(300);
   tl_self = t0;
   G.active = true;
   body();
